@@ -65,7 +65,7 @@ Definition Inv (base : stack) (ok : bool) (h : option err) (s : st) (t : tbl) (l
   s_db s' = s_db s /\ s_txlog s' = s_txlog s /\
   forallb prop_ok l = true /\ flags_le (s_fl s) (s_fl s') /\
   exists nops, s_ops s' = nops ++ s_ops s /\ forallb body_op nops = true /\
-    (h = None -> x_spign (s_fl s') = false ->
+    (h = None ->
        (ok = true -> h' = None) /\
        all_fault (stmt_errs_l l) /\ (length (stmt_errs_l l) <= countf KStmt nops)%nat /\
        all_fault (save_errs_l l) /\ (length (save_errs_l l) <= countf KSave nops)%nat).
@@ -76,19 +76,8 @@ Proof.
   intros base ok h s t local l h' s' t' local' H.
   destruct H as (A1 & A2 & A3 & A4 & A5 & A6 & A7 & A8 & A9 & nops & B1 & B2 & B3).
   repeat (split; [assumption|]). exists nops. repeat (split; [assumption|]).
-  intros Hh Hx. destruct (B3 Hh Hx) as (D1 & D2 & D3 & D4 & D5).
+  intros Hh. destruct (B3 Hh) as (D1 & D2 & D3 & D4 & D5).
   repeat split; try assumption. discriminate.
-Qed.
-
-Lemma inv_set_spign : forall base ok h s t local l h' s' t' local',
-  Inv base ok h s t local l h' s' t' local' -> Inv base true h s t local l h' (flag_spign s') t' local'.
-Proof.
-  intros base ok h s t local l h' s' t' local' H.
-  destruct H as (A1 & A2 & A3 & A4 & A5 & A6 & A7 & A8 & A9 & nops & B1 & B2 & B3).
-  unfold Inv; cbn [flag_spign set_fl s_tx s_gen s_db s_txlog s_ops s_fl x_spign].
-  repeat (split; [assumption|]).
-  split. { destruct A9 as [F1 [F2 F3]]. repeat split; cbn; auto. }
-  exists nops. repeat (split; [assumption|]). intros _ Hx; discriminate.
 Qed.
 
 Lemma new_names_refl : forall g l, new_names g l l.
@@ -124,12 +113,9 @@ Proof.
   split. { eapply flags_le_trans; eassumption. }
   exists (n2 ++ n1). split. { rewrite D1, B1, app_assoc; reflexivity. }
   split. { rewrite forallb_app, D2, B2; reflexivity. }
-  intros Hh Hx.
-  assert (Hx1 : x_spign (s_fl s1) = false).
-  { destruct (x_spign (s_fl s1)) eqn:Ex; [|reflexivity].
-    destruct C9 as [_ [_ F]]. rewrite (F Ex) in Hx; discriminate. }
-  destruct (B3 Hh Hx1) as (P1 & P2 & P3 & P4 & P5).
-  destruct (D3 (P1 eq_refl) Hx) as (Q1 & Q2 & Q3 & Q4 & Q5).
+  intros Hh.
+  destruct (B3 Hh) as (P1 & P2 & P3 & P4 & P5).
+  destruct (D3 (P1 eq_refl)) as (Q1 & Q2 & Q3 & Q4 & Q5).
   unfold stmt_errs_l, save_errs_l in *. rewrite !flat_map_app, !app_length, !countf_app.
   split; [exact Q1|]. split; [apply all_fault_app; assumption|]. split; [lia|].
   split; [apply all_fault_app; assumption|]. lia.
